@@ -41,8 +41,9 @@ RULE = ("one unit = one writer configuration (FileAccessor flat/deep x gzip "
         "both accessor classes with a sentinel sibling directory. "
         "Non-trivial states: >= 2 names present or a name overwritten.")
 ASSUMPTIONS = [
-    "file names ending in '.gz' are outside the alphabet: 'X.gz' is by "
-    "design the path of a compressed 'X'",
+    "file names ending in '.gz' occur only alone in their dataset (never "
+    "next to the same name without the suffix): 'X.gz' is by design also "
+    "the path of a compressed 'X'",
     "reference model: dict name -> bytes, last write wins, store without "
     "overwrite on an existing name fails and changes nothing",
     "a name keeps its MIME type for its lifetime in the main family (a "
@@ -344,6 +345,17 @@ def observe(cfg, d, model, mimes, col, case, names=None):
             if p not in have:
                 col.violation("C12/layout/not-at-documented-path/" + tag,
                               case, p, sorted(have))
+            elif p == name:
+                # a stored name that itself ends in ".gz", written where
+                # compression does not apply: the bytes verbatim
+                pl = is_rfc1952(model[name])
+                canon = (b"<gz>" + pl) if pl is not None else (
+                    b"<bad-gz>" + model[name])
+                if not p.endswith(".gz"):
+                    canon = model[name]
+                if have[p] != canon:
+                    col.violation("C12/layout/plain-file-content", case, p,
+                                  have[p][:40].hex())
             elif p.endswith(".gz"):
                 if have[p] != b"<gz>" + model[name]:
                     col.violation("C12/layout/gz-not-valid-rfc1952-of-"
@@ -428,6 +440,9 @@ def confinement_names(outside_abs):
         # outside names whose parent directories do not exist yet: refusing
         # them must not create those directories either
         ("../newdir/x", True), ("mesh/../../other/1:0", True),
+        # a sibling directory whose name starts with the dataset's name
+        ("../root_backup/s.txt", True), ("mesh/../../root_backup/new", True),
+        ("../rootling", True),
         ("../../elsewhere/a/b", True),
         (os.path.join(os.path.dirname(os.path.dirname(outside_abs)),
                       "newabs", "deep", "f"), True),
@@ -458,6 +473,10 @@ def _eval_confinement(col, cfg):
         sent = os.path.join(parent, "ds", "sentinel")
         os.makedirs(sent)
         with open(os.path.join(sent, "s.txt"), "wb") as f:
+            f.write(b"SENTINEL")
+        os.makedirs(os.path.join(parent, "ds", "root_backup"))
+        with open(os.path.join(parent, "ds", "root_backup", "s.txt"),
+                  "wb") as f:
             f.write(b"SENTINEL")
         outside_abs = os.path.join(parent, "ds", "sentinel", "s.txt")
         acc = make_accessor(root, cfg)
@@ -526,6 +545,8 @@ NAME_ALPHA = ["labels", "labels.v2", "seg.left.frag", "seg.left",
               "a.b/c.d", "a.b/c", "mesh/7:0.x", "mesh/7:0", "v1.0/info",
               "noext", "notes..txt", "..hidden", "mesh/7:0..3", "a...b/c"]
 
+
+GZ_NAMES = ["source/volume.nii.gz", "labels.json.gz"]
 
 # directories that exist once a nested name or a chunk has been stored:
 # they are not stored names (fetch_file must fail)
@@ -599,6 +620,15 @@ def names_family(cfg, col):
                     ["store_file", n1, 2, "application/octet-stream", False],
                     ["store_file", n2, 1, "application/octet-stream",
                      False]], col, base)
+                runs += 1
+    # names that themselves end in ".gz", alone in their dataset (no name
+    # "X" next to "X.gz"): what was stored must come back under that name
+    for n1 in GZ_NAMES:
+        for mime in ("application/octet-stream", "application/json",
+                     "image/jpeg"):
+            for ci in (2, 1):
+                run_history(cfg, [["store_file", n1, ci, mime, False]], col,
+                            dict(base, names=[n1]))
                 runs += 1
     col.r["states"] += runs
     col.r["transitions"] += 2 * runs
